@@ -391,6 +391,114 @@ func (c08) Run(c *Ctx, raw json.RawMessage) Case {
 		}
 		tags = append(tags, "recursive")
 	}
+	// nested recursion, the clear-cut part of the rule: a parameter (or template-data key) that exactly one package
+	// of the chain "the package itself, its configured recursive ancestors" sets, that the top level does not set
+	// and that no other ancestor sets, takes that value – whatever the order the ancestors are handled in
+	// (trees without sub-package exclusions only: every recursive ancestor reaches every package below it)
+	noExclusions := true
+	if _, ok := t.Root["exclude-subpkg-regex"]; ok {
+		noExclusions = false
+	}
+	for _, q := range t.Packages {
+		if _, ok := q.Config["exclude-subpkg-regex"]; ok {
+			noExclusions = false
+		}
+	}
+	if noExclusions && len(t.Dirs) > 0 {
+		isRec := func(q PkgIn) bool { v, ok := q.Config["recursive"].(bool); return ok && v }
+		for _, path := range sortedKeys(rc.Packages) {
+			pc := rc.Packages[path]
+			got := cfgJSON(pc.Config, cfgPath)
+			// the chain
+			type setter struct {
+				who string
+				cfg CfgMap
+				ok  bool // may be the unique setter (the package itself or an explicitly recursive ancestor)
+			}
+			var chain []setter
+			for _, q := range t.Packages {
+				if q.Path == path {
+					chain = append(chain, setter{q.Path, q.Config, true})
+				} else if strings.HasPrefix(path, q.Path+"/") {
+					chain = append(chain, setter{q.Path, q.Config, isRec(q)})
+				}
+			}
+			anyRec := false
+			for _, st := range chain {
+				if st.who != path && st.ok {
+					anyRec = true
+				}
+			}
+			if !anyRec {
+				continue
+			}
+			check := func(what string, key string, lookup func(CfgMap) (any, bool), gotV any) {
+				// the top level (defaults, environment, file, flags) must not have a value of its own
+				if v, set := lookup(CfgMap(rootEff)); set && !isEmptyish(v) {
+					return
+				}
+				if _, set := lookup(t.Root); set {
+					return
+				}
+				var vals []any
+				var who string
+				eligible := true
+				for _, st := range chain {
+					if v, ok := lookup(st.cfg); ok {
+						vals = append(vals, v)
+						who = st.who
+						if !st.ok {
+							eligible = false
+						}
+					}
+				}
+				if len(vals) != 1 || !eligible || isEmptyish(vals[0]) {
+					return
+				}
+				if !jsonEq(vals[0], gotV) {
+					wb, _ := json.Marshal(vals[0])
+					gb, _ := json.Marshal(gotV)
+					note(fmt.Sprintf("package %s: %s %q is set only by %s (%s) among the package and its recursive ancestors, but resolves to %s", path, what, key, who, wb, gb))
+				}
+			}
+			for _, k := range c08WholeKeys {
+				if k == "recursive" || k == "exclude-subpkg-regex" {
+					continue
+				}
+				k := k
+				check("parameter", k, func(m CfgMap) (any, bool) {
+					if m == nil {
+						return nil, false
+					}
+					v, ok := m[k]
+					return v, ok
+				}, got[k])
+			}
+			tdKeys := map[string]bool{}
+			for _, st := range chain {
+				if td, ok := st.cfg["template-data"].(map[string]any); ok {
+					for k := range td {
+						tdKeys[k] = true
+					}
+				}
+			}
+			gotTD, _ := got["template-data"].(map[string]any)
+			for _, k := range sortedKeys(tdKeys) {
+				k := k
+				check("template-data key", k, func(m CfgMap) (any, bool) {
+					if m == nil {
+						return nil, false
+					}
+					td, ok := m["template-data"].(map[string]any)
+					if !ok {
+						return nil, false
+					}
+					v, ok := td[k]
+					return v, ok
+				}, gotTD[k])
+			}
+		}
+	}
 	// leak check: resolving must not have changed the top level (aliasing between levels)
 	note(c08Check("top level after resolution", cfgJSON(&rc.Config, cfgPath), nil, rootEff))
 
